@@ -93,10 +93,14 @@ def rand_filters(rng: random.Random, n: int, n_mazes: int, allow=("path_length",
     return out
 
 
-def rand_cfgspec(rng: random.Random, max_n: int = 6, max_mazes: int = 8, filters: bool = True, rich_endpoints: bool = True, gens=GENS, min_n: int = 2) -> dict:
+def rand_cfgspec(rng: random.Random, max_n: int = 6, max_mazes: int = 8, filters: bool = True, rich_endpoints: bool = True, gens=GENS, min_n: int = 2, big_mazes: float = 0.0) -> dict:
     gen = rng.choice(gens)
     n = rng.randint(min_n, max_n)
     n_mazes = rng.randint(1, max_mazes)
+    if big_mazes and rng.random() < big_mazes:
+        # dataset sizes on both sides of the library's default size threshold (100), on small grids to stay cheap
+        n = rng.randint(min_n, min(max_n, 4))
+        n_mazes = rng.randint(97, 130)
     return {
         "name": rng.choice(["t", "sim", "cache-test", "a b"]),
         "grid_n": n,
